@@ -69,13 +69,14 @@ def run(ctx):
              else [(2, 2, "inline", "single"), (4, 2, "structure", "single"), (3, 2, "code", "single")])
     ctx.extra["doc_and_full_models_agree_on_documents"] = fullfam.doc_crosscheck(ctx, xplan, "c06", doc_cfg)
     fullfam.run_oracle(ctx)
+    fullfam.run_directed(ctx)
     run_emphasis(ctx)
     ctx.exhaustive = True
     ctx.rule = ("Doc.tla: every abstract document up to the node/depth bound over three leaf sets (structure, 20 inline snippets incl. multi-line links / code spans / "
                 "tags in every container, code and HTML blocks) under the default choice vector, every single-choice variation (24) and choice pairs (thorough); "
                 "Blocks.tla: every document of <= 3/4 line shapes over 50 shapes, <= 3/4 over 22 tab shapes, <= 4/6 over 12 core shapes, <= 3/4 over 34 reference-definition shapes, "
                 "<= 3/4 over 41 HTML-block shapes, and the core / definition / HTML sets again with CR, CRLF and mixed line endings; "
-                "Inline.tla: every string <= 4/6 over seven alphabets; Full.tla (Blocks o Inline o HTML mapping): every document of <= 2/3 lines over six shape sets that cross container prefixes (quote with and without its space, list item, indentation, tabs) with pieces of multi-line inline constructs, LF / CR / CRLF - skeleton, inline structure in source offsets and HTML per root block; non-trivial = document with >= 3 line endings / skeleton with >= 4 nodes / string with >= 1 inline node; "
+                "Inline.tla: every string <= 4/6 over seven alphabets; Full.tla (Blocks o Inline o HTML mapping): every document of <= 2/3 lines over six shape sets that cross container prefixes (quote with and without its space, list item, indentation, tabs) with pieces of multi-line inline constructs, LF / CR / CRLF - skeleton, inline structure in source offsets and HTML per root block; FullDirected.tla: directed documents where a count matters (runs of 255-259 fence characters / backticks / delimiters / spaces / blank lines, closing fences shorter, equal, longer, ten-digit markers, seven '#', nesting 20-40 deep); non-trivial = document with >= 3 line endings / skeleton with >= 4 nodes / string with >= 1 inline node; "
                 "distinct by document bytes")
     ctx.assumptions += ["Doc.tla's libraries only contain spellings whose meaning is fixed by the spec text; compositions whose meaning depends on more than the rule exercised are excluded by CanAddLeaf / CanClose / ChoiceOK",
                         "the denotation is written in the renderer's dialect (void tags without slash, &quot; / &#39;, references copied verbatim) and compared exactly per root block",
